@@ -41,22 +41,22 @@ type stopCase struct{}
 
 // T is handed to every property function. All randomness goes through it.
 type T struct {
-	rt      *rapid.T
-	replay  []Draw
-	pos     int
-	draws   []Draw
-	notes   []string
-	classes map[string]bool
-	nontriv bool
-	failed  bool
-	failMsg string
-	failKey string
-	knownHit map[string]int
-	st      *Stats
+	rt        *rapid.T
+	replay    []Draw
+	pos       int
+	draws     []Draw
+	notes     []string
+	classes   map[string]bool
+	nontriv   bool
+	failed    bool
+	failMsg   string
+	failKey   string
+	knownHit  map[string]int
+	st        *Stats
 	exhausted bool
-	quiet   bool // shrinking run: do not write the failure file
-	skipped int  // replay: recorded draws passed over
-	missed  int  // replay: draws asked for that were not recorded
+	quiet     bool // shrinking run: do not write the failure file
+	skipped   int  // replay: recorded draws passed over
+	missed    int  // replay: draws asked for that were not recorded
 }
 
 func (t *T) record(d Draw) { t.draws = append(t.draws, d) }
